@@ -109,7 +109,9 @@ ScalarChecks(e) ==
                   <<"digits -8..7, top digit 0..8", TRUE, (\A i \in 1..63 : e.digits[i] >= -8 /\ e.digits[i] <= 7) /\ e.digits[64] >= 0 /\ e.digits[64] <= 8>>,
                   <<"digits = the specified recoding (Recode!SignedLoop)", SignedLoop(NibblesOf(ToBytes(Val(ly, e.a), 32)), 1, 0, 64), e.digits>> >>
           [] f = "ContractSlidingWindow" ->
-               << <<"digits represent the integer", TRUE, DigitsRepresent(e.digits, 1, Val(ly, e.a))>>,
+               << <<"digits differ from the specified recoding (Recode!Outer on the bits of the scalar)",
+                      Outer(SubSeq([i \in 1..256 |-> Bit(Val(ly, e.a), i - 1)], 1, 256), 1, (2 ^ (e.w - 1)) - 1, 256), e.digits, "note">>,
+                  <<"digits represent the integer", TRUE, DigitsRepresent(e.digits, 1, Val(ly, e.a))>>,
                   <<"digits zero or odd with |d| <= 2^(w-1)-1", TRUE,
                        \A i \in 1..256 : e.digits[i] = 0 \/ (e.digits[i] % 2 = 1 /\ e.digits[i] <= (2 ^ (e.w - 1)) - 1 /\ e.digits[i] >= -((2 ^ (e.w - 1)) - 1))>> >>
           [] f = "LessThanVartime" ->
